@@ -57,7 +57,7 @@ func (c18) Info() core.Info {
 			"after an injected reader error the sink log may be any prefix covering at least the packets fully delivered before the failing Read; it must never contain a misaligned, duplicated or reordered packet",
 			"a sink that returns a short count without error is outside the statement: only integrity and order of what is delivered are checked after it",
 		},
-		RequiredProbes: []string{"frag_unaligned", "one_byte", "data_with_eof", "partial_tail", "sink_err_first", "sink_err_mid", "reader_err_mid_packet", "via_io_copy", "write_not_multiple", "write_multi_packet", "closer", "adapter_reused", "adapter_reused_after_partial_tail", "reader_is_writerto", "bufio_reader_smaller_than_a_packet", "stream_with_repeated_packets", "sink_err_full_count", "reader_fails_with_unexpected_eof", "sink_fails_with_eof_value", "more_than_4gib_in_one_call", "sink_type_has_own_write_method"},
+		RequiredProbes: []string{"frag_unaligned", "one_byte", "data_with_eof", "partial_tail", "sink_err_first", "sink_err_mid", "reader_err_mid_packet", "via_io_copy", "write_not_multiple", "write_multi_packet", "closer", "adapter_reused", "adapter_reused_after_partial_tail", "reader_is_writerto", "bufio_reader_smaller_than_a_packet", "stream_with_repeated_packets", "sink_err_full_count", "reader_fails_with_unexpected_eof", "sink_fails_with_eof_value", "seekable_reader_already_partly_read", "more_than_4gib_in_one_call", "sink_type_has_own_write_method"},
 	}
 }
 
@@ -107,7 +107,7 @@ func (c18) Gen(r *core.Rand, tier string) interface{} {
 		if s.Packets > 0 {
 			s.Sink.FailAt = r.Pick(0, 0, r.Intn(s.Packets), s.Packets-1)
 			s.Sink.Kind = r.PickS("err", "err", "errfull")
-			s.Sink.As = r.PickS("", "", "", "eof", "ueof")
+			s.Sink.As = r.PickS("", "", "", "eof", "ueof", "temporary")
 			if r.Chance(1, 5) {
 				s.Sink.Kind = "short"
 				s.Sink.ShortN = r.Pick(0, 1, 100, 187)
@@ -464,7 +464,17 @@ func (c18) Exec(script interface{}, c *core.Ctx) {
 			}
 			switch wrap {
 			case "bytes":
-				src = bytes.NewReader(data)
+				if s.Salt%3 == 0 {
+					// a seekable reader that the caller has already read from: the stream is what
+					// is left in it, not what it held at offset 0
+					junk := bytes.Repeat([]byte{0x47, 0x1F, 0xFF, 0x10, 0xEE}, 15+s.Salt%40)
+					br := bytes.NewReader(append(append([]byte(nil), junk...), data...))
+					io.CopyN(io.Discard, br, int64(len(junk)))
+					src = br
+					c.Probe("seekable_reader_already_partly_read")
+				} else {
+					src = bytes.NewReader(data)
+				}
 				c.Probe("reader_is_writerto")
 			case "bufio", "bufio_peeked":
 				// a buffer smaller than a packet (bufio's minimum is 16), one that just holds
